@@ -47,7 +47,10 @@ pub fn eval(c: &RawCase) -> Outcome {
         None => {
             // no finish succeeded: either none attempted or the history has none
             let attempted = ops.iter().any(|op| op.is_finish());
-            if attempted {
+            let first_fin = steps.iter().find(|s| s.op.is_finish());
+            if matches!(first_fin.map(|s| &s.verdict), Some(Verdict::Either(_))) {
+                o.unconstrained.push("finish_with_track_duration_beyond_u32(C16)".into());
+            } else if attempted {
                 o.fail("once", "once.first_finish_failed", "a finish was attempted on a fault-free sink but none succeeded");
             } else {
                 o.class("no_finish_attempt");
